@@ -19,29 +19,33 @@ Proof.
   intros H. unfold alloc_call. rewrite H. cbn [Z.eqb]. destruct (fa_rep s); eexists; split; try reflexivity; split; reflexivity.
 Qed.
 
-Lemma emit_call_fails r k b s : fe s = 0 ->
-  exists t, emit_call r k b s = Ret false t [] /\ core t = core s /\ emit_start t = emit_start s /\ emit_end t = emit_end s.
+Lemma emit_call_fails r k b tg s : fe s = 0 ->
+  exists t, emit_call r k b tg s = Ret false t [] /\ core t = core s /\ emit_start t = emit_start s /\ emit_end t = emit_end s.
 Proof.
   intros H. unfold emit_call. rewrite H. cbn [Z.eqb]. destruct (fe_rep s); eexists; split; try reflexivity; repeat split; reflexivity.
 Qed.
 
 (* ------------------------------------------------------------------ emit failure -> null reference, nothing emitted *)
-Lemma emit_front_fails k b s : fe s = 0 -> exists t, emit_front k b s = Ret 0 t [] /\ emit_start t = emit_start s.
+Lemma emit_front_tag_fails k b tg s : fe s = 0 -> exists t, emit_front_tag k b tg s = Ret 0 t [] /\ emit_start t = emit_start s.
 Proof.
-  intros H. unfold emit_front, bind, get. 
+  intros H. unfold emit_front_tag, bind, get. 
   destruct ((zlen b =? 0) || (S32_MAX <? zlen b) || (emit_start s - zlen b <? S32_MIN)).
   - eexists; split; reflexivity.
-  - destruct (emit_call_fails (emit_start s - zlen b) k b s H) as (t & -> & _ & Hs & _). cbn. eexists; split; [reflexivity | exact Hs].
+  - destruct (emit_call_fails (emit_start s - zlen b) k b tg s H) as (t & -> & _ & Hs & _). cbn. eexists; split; [reflexivity | exact Hs].
 Qed.
+Lemma emit_front_fails k b s : fe s = 0 -> exists t, emit_front k b s = Ret 0 t [] /\ emit_start t = emit_start s.
+Proof. apply emit_front_tag_fails. Qed.
 
-Lemma emit_back_fails k b s : fe s = 0 -> exists t, emit_back k b s = Ret 0 t [].
+Lemma emit_back_tag_fails k b tg s : fe s = 0 -> exists t, emit_back_tag k b tg s = Ret 0 t [].
 Proof.
-  intros H. unfold emit_back, bind, get, upd.
+  intros H. unfold emit_back_tag, bind, get, upd.
   destruct ((emit_end s <? 0) || (S32_MAX - emit_end s <? zlen b)).
   - eexists; reflexivity.
   - cbn. set (s1 := set_emit_end (emit_end s + zlen b) s).
-    destruct (emit_call_fails (emit_end s) k b s1 H) as (t & -> & _). cbn. eexists; reflexivity.
+    destruct (emit_call_fails (emit_end s) k b tg s1 H) as (t & -> & _). cbn. eexists; reflexivity.
 Qed.
+Lemma emit_back_fails k b s : fe s = 0 -> exists t, emit_back k b s = Ret 0 t [].
+Proof. apply emit_back_tag_fails. Qed.
 
 (* the create calls that consist of one emit: the call returns the null reference when its emit call fails *)
 Lemma create_string_emit_fails d s : fe s = 0 -> exists t, create_string d s = Ret 0 t [].
@@ -54,10 +58,10 @@ Qed.
 
 Lemma create_vtable_emit_fails vt s : fe s = 0 -> exists t, create_vtable vt s = Ret 0 t [].
 Proof.
-  intros H. unfold create_vtable, bind, get.
+  intros H. unfold create_vtable, front_pad, bind, get, ret.
   destruct ((nest_id s =? 0) && (disable_vt_clustering s =? 0)).
-  - destruct (emit_back_fails EK_vtable vt s H) as (t & ->). eexists; reflexivity.
-  - destruct (emit_front_fails EK_vtable vt s H) as (t & -> & _). cbn. eexists; reflexivity.
+  - destruct (emit_back_tag_fails EK_vtable vt vt s H) as (t & ->). eexists; reflexivity.
+  - match goal with |- context [emit_front_tag ?k ?b ?g s] => destruct (emit_front_tag_fails k b g s H) as (t & -> & _) end. cbn. eexists; reflexivity.
 Qed.
 
 (* ------------------------------------------------------------------ allocation failure -> reserve reports it, capacities unchanged *)
@@ -122,7 +126,7 @@ Ltac se1 :=
   | match goal with |- SE (match ?x with _ => _ end) => destruct x end
   | match goal with |- SE (let '(_, _) := ?x in _) => destruct x end ].
 Ltac seA := repeat se1.
-Ltac se f := unfold f; seA.
+Ltac se f := solve [unfold f; seA].
 
 Lemma SE_alloc_call k n : SE (alloc_call k n).
 Proof. intros s. unfold alloc_call. destruct (fa s =? 0); [destruct (fa_rep s)|destruct (0 <? fa s)]; cbn; auto. Qed.
@@ -193,23 +197,26 @@ Proof. intros H Hm s Hs. specialize (Hm s Hs). destruct (m s); [|exact I]. destr
 Lemma RI_ret {A} (a : A) (G : A -> Prop) : G a -> RI (ret a) G.
 Proof. intros H s. cbn. auto. Qed.
 
-Lemma EF_emit_call r k b : EF (emit_call r k b) (fun ok => ok = false).
+Lemma EF_emit_call r k b t : EF (emit_call r k b t) (fun ok => ok = false).
 Proof.
   intros s [H1 H2]. unfold emit_call. rewrite H1. cbn [Z.eqb]. rewrite H2. split; [reflexivity|]. right. cbn. split; reflexivity.
 Qed.
 
-Lemma EF_emit_front k b : EF (emit_front k b) (fun r => r = 0).
+Lemma EF_emit_front_tag k b t : EF (emit_front_tag k b t) (fun r => r = 0).
 Proof.
-  unfold emit_front. apply EF_bind_SE; [apply SE_get | intro es].
+  unfold emit_front_tag. apply EF_bind_SE; [apply SE_get | intro es].
   destruct ((zlen b =? 0) || (S32_MAX <? zlen b) || (es - zlen b <? S32_MIN)); [apply EF_of_SE, SE_ret|].
   eapply EF_bind; [apply EF_emit_call | |].
   - intros ok. destruct ok; apply EF_of_SE; seA.
   - intros ok ->. apply RI_ret. reflexivity.
 Qed.
 
-Lemma EF_emit_back k b : EF (emit_back k b) (fun r => r = 0).
+Lemma EF_emit_front k b : EF (emit_front k b) (fun r => r = 0).
+Proof. apply EF_emit_front_tag. Qed.
+
+Lemma EF_emit_back_tag k b t : EF (emit_back_tag k b t) (fun r => r = 0).
 Proof.
-  unfold emit_back. apply EF_bind_SE; [apply SE_get | intro ee].
+  unfold emit_back_tag. apply EF_bind_SE; [apply SE_get | intro ee].
   destruct ((ee <? 0) || (S32_MAX - ee <? zlen b)); [apply EF_of_SE, SE_ret|].
   apply EF_bind_SE; [seA | intros _].
   eapply EF_bind; [apply EF_emit_call | |].
@@ -217,7 +224,10 @@ Proof.
   - intros ok ->. apply RI_ret. reflexivity.
 Qed.
 
-Ltac ef_emit := first [apply EF_emit_front | apply EF_emit_back].
+Lemma EF_emit_back k b : EF (emit_back k b) (fun r => r = 0).
+Proof. apply EF_emit_back_tag. Qed.
+
+Ltac ef_emit := first [apply EF_emit_front | apply EF_emit_back | apply EF_emit_front_tag | apply EF_emit_back_tag].
 
 Lemma EF_create_struct d a : EF (create_struct d a) (fun r => r = 0).
 Proof. unfold create_struct. apply EF_bind_SE; [seA | intros _]. apply EF_bind_SE; [seA | intros p]. ef_emit. Qed.
@@ -235,8 +245,8 @@ Proof. unfold create_table. apply EF_bind_SE; [seA | intros _]. apply EF_bind_SE
 Lemma EF_create_vtable v : EF (create_vtable v) (fun r => r = 0).
 Proof.
   unfold create_vtable. apply EF_bind_SE; [seA | intros nid]. apply EF_bind_SE; [seA | intros dc].
-  destruct ((nid =? 0) && (dc =? 0)); [ef_emit|].
-  eapply EF_bind; [apply EF_emit_front | |].
+  destruct ((nid =? 0) && (dc =? 0)); [ef_emit|]. apply EF_bind_SE; [seA | intros p].
+  eapply EF_bind; [apply EF_emit_front_tag | |].
   - intros r. destruct (r =? 0); apply EF_of_SE; seA.
   - intros r ->. cbn [Z.eqb]. apply RI_ret. reflexivity.
 Qed.
@@ -291,9 +301,9 @@ Proof.
   do 2 (apply EF_bind_SE; [seA | intro]).
   apply EF_then_cleanup; [apply EF_create_offset_vector_direct | intros r; destruct (r =? 0); seA | intros r ->; cbn [Z.eqb]; apply RI_ret; reflexivity].
 Qed.
-Lemma EF_end_buffer root : EF (end_buffer root) (fun x => x = 0).
+Lemma EF_end_buffer fx root : EF (end_buffer fx root) (fun x => x = 0).
 Proof.
-  unfold end_buffer. apply EF_bind_SE; [seA | intros _].
+  unfold end_buffer. destruct (fx && (root =? 0)); [apply EF_of_SE, SE_ret|]. apply EF_bind_SE; [seA | intros _].
   do 3 (apply EF_bind_SE; [seA | intro]). apply EF_bind_SE; [seA | intros _]. do 2 (apply EF_bind_SE; [seA | intro]).
   apply EF_then_cleanup; [apply EF_create_buffer | intros r; destruct (r =? 0); seA | intros r ->; cbn [Z.eqb]; apply RI_ret; reflexivity].
 Qed.
@@ -360,9 +370,9 @@ Ltac sa1 :=
   | match goal with |- SA (match ?x with _ => _ end) => destruct x end
   | match goal with |- SA (let '(_, _) := ?x in _) => destruct x end ].
 Ltac saA := repeat sa1.
-Ltac sa f := unfold f; saA.
+Ltac sa f := solve [unfold f; saA].
 
-Lemma SA_emit_call r k b : SA (emit_call r k b).
+Lemma SA_emit_call r k b t : SA (emit_call r k b t).
 Proof.
   intros s. unfold emit_call, emitter_emit. destruct (fe s =? 0); [destruct (fe_rep s); cbn; auto|].
   repeat match goal with |- context [if ?b then _ else _] => destruct b end; cbn; auto.
@@ -378,9 +388,11 @@ Lemma SA_expect_type t : SA (expect_type t). Proof. sa expect_type. Qed.
 Lemma SA_unpush_ds n : SA (unpush_ds n). Proof. sa unpush_ds. Qed.
 Lemma SA_front_pad n a : SA (front_pad n a). Proof. sa front_pad. Qed.
 Lemma SA_back_pad a : SA (back_pad a). Proof. sa back_pad. Qed.
-Lemma SA_emit_front k b : SA (emit_front k b). Proof. sa emit_front. Qed.
-Lemma SA_emit_back k b : SA (emit_back k b). Proof. sa emit_back. Qed.
-Global Hint Resolve SA_refresh_ds SA_raise_min_align SA_expect_type SA_unpush_ds SA_front_pad SA_back_pad SA_emit_front SA_emit_back : sa_db.
+Lemma SA_emit_front_tag k b t : SA (emit_front_tag k b t). Proof. sa emit_front_tag. Qed.
+Lemma SA_emit_back_tag k b t : SA (emit_back_tag k b t). Proof. sa emit_back_tag. Qed.
+Lemma SA_emit_front k b : SA (emit_front k b). Proof. apply SA_emit_front_tag. Qed.
+Lemma SA_emit_back k b : SA (emit_back k b). Proof. apply SA_emit_back_tag. Qed.
+Global Hint Resolve SA_refresh_ds SA_raise_min_align SA_expect_type SA_unpush_ds SA_front_pad SA_back_pad SA_emit_front SA_emit_back SA_emit_front_tag SA_emit_back_tag : sa_db.
 Lemma SA_exit_frame : SA exit_frame. Proof. sa exit_frame. Qed.
 Lemma SA_align_buffer_end a b n : SA (align_buffer_end a b n). Proof. sa align_buffer_end. Qed.
 Global Hint Resolve SA_exit_frame SA_align_buffer_end : sa_db.
@@ -592,12 +604,71 @@ Definition alloc_fail_value (o : op) : Z :=
    handle) from start_struct, table_add, table_add_offset, extend_*, append_string, enter_user_frame, end_table *)
 Theorem alloc_failure_step o : is_reset o = false -> AF (step true o) (fun x => x = alloc_fail_value o).
 Proof.
-  destruct o; cbn [is_reset step alloc_fail_value]; intros E; try discriminate;
-  first [ apply AF_start_buffer | apply AF_start_struct | apply AF_start_table | apply AF_table_add | apply AF_table_add_offset
-        | apply AF_end_table | apply AF_start_vector | apply AF_extend_vector | apply AF_start_offset_vector | apply AF_extend_offset_vector
-        | apply AF_start_string | apply AF_append_string | apply AF_enter_user_frame
-        | apply AF_of_SA;
-          first [ sa end_buffer | sa end_struct | sa truncate_vector | sa end_vector | sa truncate_offset_vector | sa end_offset_vector
-                | sa truncate_string | sa end_string | sa exit_user_frame_at | sa set_max_level_op | sa push_buffer_alignment
-                | sa pop_buffer_alignment | saA ] ].
+  destruct o; cbn [is_reset step alloc_fail_value]; intros E; try discriminate.
+  - apply AF_start_buffer.
+  - apply AF_of_SA. sa end_buffer.
+  - apply AF_of_SA. saA.
+  - apply AF_start_struct.
+  - apply AF_of_SA. sa end_struct.
+  - apply AF_of_SA. saA.
+  - apply AF_start_table.
+  - apply AF_table_add.
+  - apply AF_table_add_offset.
+  - apply AF_end_table.
+  - apply AF_start_vector.
+  - apply AF_extend_vector.
+  - apply AF_of_SA. sa truncate_vector.
+  - apply AF_of_SA. sa end_vector.
+  - apply AF_of_SA. saA.
+  - apply AF_start_offset_vector.
+  - apply AF_extend_offset_vector.
+  - apply AF_of_SA. sa truncate_offset_vector.
+  - apply AF_of_SA. sa end_offset_vector.
+  - apply AF_start_string.
+  - apply AF_append_string.
+  - apply AF_of_SA. sa truncate_string.
+  - apply AF_of_SA. sa end_string.
+  - apply AF_of_SA. saA.
+  - apply AF_enter_user_frame.
+  - apply AF_of_SA. saA.
+  - apply AF_of_SA. sa exit_user_frame_at.
+  - apply AF_of_SA. saA.
+  - apply AF_of_SA. sa set_max_level_op.
+  - apply AF_of_SA. saA.
+  - apply AF_of_SA. saA.
+  - apply AF_of_SA. saA.
+  - apply AF_of_SA. sa push_buffer_alignment.
+  - apply AF_of_SA. sa pop_buffer_alignment.
+Qed.
+
+(* ------------------------------------------------------------------ small models of the two other allocating components *)
+(* emitter.c advance_front / advance_back: a page is taken from the ring when one is spare, else allocated *)
+Record ering := mkring { er_used_pages : Z; er_spare : Z; er_cap : Z }.
+Definition advance (alloc_ok : bool) (r : ering) : option ering :=
+  if 0 <? er_spare r then Some (mkring (er_used_pages r + 1) (er_spare r - 1) (er_cap r))
+  else if alloc_ok then Some (mkring (er_used_pages r + 1) 0 (er_cap r + PAGE_SIZE))
+  else None.                                  (* return -1, E untouched *)
+Lemma emitter_alloc_fail r : er_spare r <= 0 -> advance false r = None.
+Proof. intros H. unfold advance. destruct (0 <? er_spare r) eqn:E; [lia | reflexivity]. Qed.
+Lemma emitter_alloc_ok_accounting ok r r' : advance ok r = Some r' ->
+  er_used_pages r' = er_used_pages r + 1 /\ (er_cap r' = er_cap r \/ (ok = true /\ er_cap r' = er_cap r + PAGE_SIZE)).
+Proof.
+  unfold advance. destruct (0 <? er_spare r); [intros [= <-]; cbn; auto|]. destruct ok; [intros [= <-]; cbn; auto | discriminate].
+Qed.
+
+(* refmap.c flatcc_refmap_resize / flatcc_refmap_insert: the table is replaced only after calloc succeeded *)
+Record rmap := mkrmap { rm_buckets : Z; rm_count : Z; rm_items : list (Z * Z) }.
+Definition REFMAP_NOT_FOUND : Z := 0.
+Definition rm_resize (calloc_ok : bool) (buckets_wanted : Z) (m : rmap) : rmap * Z :=
+  if buckets_wanted =? rm_buckets m then (m, 0)
+  else if calloc_ok then (mkrmap buckets_wanted (rm_count m) (rm_items m), 0)
+  else (m, -1).                               (* refmap->table = T_old; return -1 *)
+Definition rm_insert (calloc_ok above_load : bool) (buckets_wanted : Z) (src ref : Z) (m : rmap) : rmap * Z :=
+  let '(m1, rc) := if above_load then rm_resize calloc_ok buckets_wanted m else (m, 0) in
+  if rc =? 0 then (mkrmap (rm_buckets m1) (rm_count m1 + 1) ((src, ref) :: rm_items m1), ref)
+  else (m, REFMAP_NOT_FOUND).
+Lemma refmap_alloc_fail b src ref m : b <> rm_buckets m ->
+  rm_resize false b m = (m, -1) /\ rm_insert false true b src ref m = (m, REFMAP_NOT_FOUND).
+Proof.
+  intros H. unfold rm_insert, rm_resize. destruct (b =? rm_buckets m) eqn:E; [lia|]. cbn. split; reflexivity.
 Qed.
